@@ -48,7 +48,10 @@ GraphProcessor::create_reusable_object(Args&&... args) noexcept {
 inline GraphVertexClosure::GraphVertexClosure(ClosureContext& closure,
                                               GraphVertex& vertex) noexcept
     : _closure(&closure), _vertex(&vertex) {
-  _closure->depend_vertex_add();
+  if (ABSL_PREDICT_FALSE(!_closure->depend_vertex_add())) {
+    _closure = nullptr;
+    _vertex = nullptr;
+  }
 }
 
 inline GraphVertexClosure::GraphVertexClosure(
@@ -88,7 +91,7 @@ inline void GraphVertexClosure::done(int error_code) noexcept {
 }
 
 inline bool GraphVertexClosure::finished() const noexcept {
-  return _closure->finished();
+  return _closure == nullptr || _closure->finished();
 }
 // GraphVertexClosure end
 ///////////////////////////////////////////////////////////////////////////////
